@@ -20,7 +20,7 @@ from coqterm import cbool
 
 IMPORTS = "From XV Require Import Base.Str Model.Bind Model.Parser Model.ParserCorr Spec.Inject."
 
-EXTRAS_C10 = ["wildknown", "poly", "wrappers", "textattr", "wildtail", "scalarwild", "fixed", "required", "anytype", "union"]
+EXTRAS_C10 = ["allprims", "compound", "wildknown", "poly", "wrappers", "textattr", "wildtail", "scalarwild", "fixed", "required", "anytype", "union"]
 
 
 # ------------------------------------------------------------------ Coq evaluation returning one code per case
@@ -186,7 +186,7 @@ def run(ck: Check):
     q = ck.quick
     budget = {"injections": 5 if q else 8, "cfgs_per_injection": 3 if q else 4, "conversions": 2 if q else 3,
               "doc_injections": 2 if q else 3, "cfgs_per_doc": 2 if q else 3, "json_injections": 3 if q else 6,
-              "json_conversions": 6 if q else 12,
+              "json_conversions": 4 if q else 12, "blank_targets": 3 if q else 8,
               "mutations": 6, "cfgs_per_mutation": 2}
     jobs = make_jobs(ck, "c10", EXTRAS_C10, ck.n(16, 120), budget)
     if getattr(ck, "replay_file", None):
